@@ -7,6 +7,12 @@ mod partition_segment;
 pub mod storage;
 pub mod wal_segment;
 
+#[cfg(feature = "verif")]
+pub(crate) mod verif_exports {
+    pub use super::file_writer::{BlobWriter, FileBlobWriter, VersionedChecksummedBlobWriter};
+    pub use super::partition_segment::PartitionSegment;
+}
+
 lazy_static! {
     static ref RT: tokio::runtime::Runtime = tokio::runtime::Runtime::new().unwrap();
 }
